@@ -73,8 +73,14 @@ def run(ctx, model_ok, deep=False):
                 if len(samples) < 4:
                     samples.append({"provider": prov, "threads": n, "rounds": rounds, "exit": r.returncode, "out": line})
                 replay_lines = ["# harness/threads.c <jwks with %d keys> %d %d %s %d  (ThreadSanitizer build)" % (len(items) // 2, n, rounds, prov, ctx.seed + rep)]
-                if r.returncode == 1 or "mismatches=0" not in line and r.returncode not in (66,):
-                    ctx.violation("falsifier:threads-results", "per-thread results differ from the sequential run (%s, %d threads): %s" % (prov, n, line or r.stderr[-200:]),
+                finished = line.startswith("threads=")
+                if not finished:
+                    # the harness must always reach its last line; a crash (also a TSan DEADLYSIGNAL) is a result
+                    ctx.violation("falsifier:threads-crash", "concurrent run did not complete (%s, %d threads, exit %d): %s" % (
+                        prov, n, r.returncode, (r.stderr.strip().splitlines() or ["?"])[1 if "DEADLYSIGNAL" in r.stderr else 0][:160]),
+                                  replay_lines=replay_lines, detail=r.stderr[-2500:])
+                elif "mismatches=0" not in line:
+                    ctx.violation("falsifier:threads-results", "per-thread results differ from the sequential run (%s, %d threads): %s" % (prov, n, line),
                                   replay_lines=replay_lines, detail=r.stderr[-1500:])
                 reports = r.stderr.split("WARNING: ThreadSanitizer:")[1:]
                 ours = [rep_ for rep_ in reports if re.search(r"/libjwt/|\bjwt_\w+|\bjwks_\w+", rep_)]
